@@ -122,7 +122,16 @@ func Create(e QueryEngine, st storage.Queryable, sc *scn.Scenario) (promql.Query
 	if sc.IsInstant() {
 		return e.NewInstantQuery(st, qopts(sc), q, sc.Time(sc.Start))
 	}
-	return e.NewRangeQuery(st, qopts(sc), q, sc.Time(sc.Start), sc.Time(sc.End), sc.Dur(sc.Step))
+	step := sc.Dur(sc.Step)
+	if ns := sc.CfgInt("stepns", 0); ns > 0 {
+		// a step given in nanoseconds (the API takes a time.Duration: below a millisecond it rounds to 0 ms)
+		step = time.Duration(ns)
+	}
+	start, end := sc.Time(sc.Start), sc.Time(sc.End)
+	if sc.CfgInt("swap", 0) == 1 {
+		start, end = end, start
+	}
+	return e.NewRangeQuery(st, qopts(sc), q, start, end, step)
 }
 
 // PathOf classifies the query object returned by the engine under test.
